@@ -51,7 +51,7 @@ class Rig:
     """with Rig("null", patches={...}) as rig:  rig.machine, rig.advance(secs), rig.exceptions"""
 
     def __init__(self, machine_dir="null", config_file="config.yaml", patches=None, base="plain", platform="virtual",
-                 loop_cls=None, mock_data=None, early_init=None, spec_patches=None):
+                 loop_cls=None, mock_data=None, early_init=None, spec_patches=None, mode_patches=None):
         from mpf.tests import MpfTestCase as mtc
         if base == "plain":
             basecls = mtc.MpfTestCase
@@ -73,7 +73,20 @@ class Rig:
                                                                copy.deepcopy(patches))
         if spec_patches:
             self.case.machine_spec_patches = copy.deepcopy(spec_patches)
-        if early_init:
+        if mode_patches:
+            mp = copy.deepcopy(mode_patches)
+
+            def _patch_modes(machine, _user=early_init):
+                from mpf.core.utility_functions import Util
+                for name, patch in mp.items():
+                    cfg = machine.mpf_config.get_mode_config(name)
+                    merged = Util.dict_merge(cfg, patch)
+                    cfg.clear()
+                    cfg.update(merged)
+                if _user:
+                    _user(machine)
+            self.case._early_machine_init = _patch_modes
+        elif early_init:
             self.case._early_machine_init = early_init
         self._loop_cls = loop_cls
         self._mtc = mtc
